@@ -666,6 +666,10 @@ pub struct CfgSites {
     /// every place that writes one of the tracked fields of the run-time structures: (field, file, enclosing fn, what)
     pub state_writes: Vec<(String, String, String, String)>,
     pub intern_uses: Vec<(String, String, String)>,
+    /// the statements of `Vm::new_gc_obj_string`, one normalised token string each
+    pub intern_glue: Vec<String>,
+    /// every call of `ObjString::new`: (file, enclosing fn)
+    pub obj_string_ctors: Vec<(String, String)>,
     pub intern_methods: Vec<String>,
     pub cfgs: Vec<(String, String, String, String, usize)>, // file, where, predicate, form, line
     pub fiber_writes: Vec<(String, String, usize, String, usize)>, // fn, field, ordinal, op, line
@@ -968,6 +972,8 @@ impl SiteSink for CfgSink {
 
 pub fn cfg_sites(srcs: &[Src]) -> R<CfgSites> {
     let mut out = CfgSites {
+        intern_glue: Vec::new(),
+        obj_string_ctors: Vec::new(),
         collect_calls: Vec::new(),
         chunk_writes: Vec::new(),
         state_writes: Vec::new(),
@@ -1013,7 +1019,86 @@ pub fn cfg_sites(srcs: &[Src]) -> R<CfgSites> {
     if !saw_vm {
         return unsup("vm.rs", "<file>", "not found");
     }
+    for s in srcs {
+        let mut g = GlueVisitor { file: s.name.clone(), fns: Vec::new(), glue: Vec::new(), ctors: Vec::new(), skip: 0 };
+        syn::visit::Visit::visit_file(&mut g, &s.ast);
+        out.intern_glue.extend(g.glue);
+        out.obj_string_ctors.extend(g.ctors);
+    }
+    if out.intern_glue.is_empty() {
+        return unsup("vm.rs", "Vm::new_gc_obj_string", "not found");
+    }
     Ok(out)
+}
+
+/// Statements of `Vm::new_gc_obj_string` and the call sites of `ObjString::new` (items under `cfg(test)` / `cfg(feature = "verif_hooks")` skipped).
+struct GlueVisitor {
+    file: String,
+    fns: Vec<String>,
+    glue: Vec<String>,
+    ctors: Vec<(String, String)>,
+    skip: usize,
+}
+
+fn hook_or_test(attrs: &[syn::Attribute]) -> bool {
+    attrs.iter().any(|a| {
+        a.path().is_ident("cfg") && {
+            let t = quote::ToTokens::to_token_stream(a).to_string();
+            t.contains("verif_hooks") || t.contains("test")
+        }
+    })
+}
+
+impl<'ast> syn::visit::Visit<'ast> for GlueVisitor {
+    fn visit_item_mod(&mut self, m: &'ast syn::ItemMod) {
+        if hook_or_test(&m.attrs) {
+            return;
+        }
+        syn::visit::visit_item_mod(self, m);
+    }
+    fn visit_item_fn(&mut self, f: &'ast syn::ItemFn) {
+        if hook_or_test(&f.attrs) {
+            return;
+        }
+        self.fns.push(f.sig.ident.to_string());
+        syn::visit::visit_item_fn(self, f);
+        self.fns.pop();
+    }
+    fn visit_item_impl(&mut self, i: &'ast syn::ItemImpl) {
+        if hook_or_test(&i.attrs) {
+            return;
+        }
+        let ty = quote::ToTokens::to_token_stream(&i.self_ty).to_string().replace(' ', "");
+        self.fns.push(ty);
+        syn::visit::visit_item_impl(self, i);
+        self.fns.pop();
+    }
+    fn visit_impl_item_fn(&mut self, f: &'ast syn::ImplItemFn) {
+        if hook_or_test(&f.attrs) {
+            return;
+        }
+        let owner = self.fns.last().cloned().unwrap_or_default();
+        let name = format!("{}::{}", owner, f.sig.ident);
+        if self.file == "vm.rs" && name == "Vm::new_gc_obj_string" {
+            self.glue.push(quote::ToTokens::to_token_stream(&f.sig).to_string());
+            for st in &f.block.stmts {
+                self.glue.push(quote::ToTokens::to_token_stream(st).to_string());
+            }
+        }
+        self.fns.push(name);
+        syn::visit::visit_impl_item_fn(self, f);
+        self.fns.pop();
+    }
+    fn visit_expr_call(&mut self, c: &'ast syn::ExprCall) {
+        if let Expr::Path(p) = &*c.func {
+            let segs: Vec<String> = p.path.segments.iter().map(|s| s.ident.to_string()).collect();
+            if segs.len() >= 2 && segs[segs.len() - 2] == "ObjString" && segs[segs.len() - 1] == "new" {
+                self.ctors.push((self.file.clone(), self.fns.last().cloned().unwrap_or_default()));
+            }
+        }
+        let _ = self.skip;
+        syn::visit::visit_expr_call(self, c);
+    }
 }
 
 impl CfgSites {
@@ -1119,6 +1204,12 @@ impl CfgSites {
             "List (String × String × String)",
             &self.intern_uses.iter().map(|(f, w, c)| format!("({}, {}, {})", lean_str(f), lean_str(w), lean_str(c))).collect::<Vec<_>>(),
         );
+        l.comment("");
+        l.comment("`Vm::new_gc_obj_string` as written: its signature, then each statement of its body (token strings).");
+        l.def_list("internGlue", "List String", &self.intern_glue.iter().map(|m| lean_str(m)).collect::<Vec<_>>());
+        l.comment("");
+        l.comment("Every call of `ObjString::new` (verif_hooks / test items stripped): (file, enclosing fn).");
+        l.def_list("objStringCtors", "List (String × String)", &self.obj_string_ctors.iter().map(|(f, w)| format!("({}, {})", lean_str(f), lean_str(w))).collect::<Vec<_>>());
         l.comment("");
         l.comment("The methods of `impl ObjStringStore` (those with a body that contains an expression).");
         l.def_list("internMethods", "List String", &self.intern_methods.iter().map(|m| lean_str(m)).collect::<Vec<_>>());
